@@ -152,13 +152,44 @@ def search_failing_input(case, backend, ctx):
     return None
 
 
+def shrink_rows(case, pred, budget=40):
+    """grid tables: keep a single failing row if possible"""
+    import copy
+    best = case
+    for name, t in case["tables"].items():
+        rows = t["rows"]
+        lo, hi = 0, len(rows)
+        calls = 0
+        while hi - lo > 1 and calls < budget:
+            mid = (lo + hi) // 2
+            for a, b in ((lo, mid), (mid, hi)):
+                c2 = copy.deepcopy(best)
+                c2["tables"][name]["rows"] = rows[a:b]
+                calls += 1
+                if pred(c2):
+                    lo, hi = a, b
+                    break
+            else:
+                break
+        c2 = copy.deepcopy(best)
+        c2["tables"][name]["rows"] = rows[lo:hi]
+        if pred(c2):
+            best = c2
+    return best
+
+
 def same_failure(case, backend, f, coq_ok=True):
     """Predicate for the shrinker: does `case` still fail on `backend` in the same way?"""
     def pred(c):
         obs = pipecheck.observe_all([c])
         v = {}
         if f["kind"] in ("names", "rows") and coq_ok:
-            v, _ = pipecheck.eval_cases("shr", [c], obs)
+            v, errs = pipecheck.eval_cases("shr", [c], obs)
+            if errs:
+                p_, s_ = obs[0].get("polars"), obs[0].get("sqlite")
+                if p_ is not None and s_ is not None and p_.names is not None and s_.names is not None and \
+                        not (p_.names == s_.names and sorted(map(repr, p_.rows)) == sorted(map(repr, s_.rows))):
+                    v = {(0, "sqlite"): 2}
         fs = failure_of(obs[0]["polars"], obs[0].get("sqlite"), v, 0)
         return any(b == backend and g["kind"] == f["kind"] and g.get("exc") == f.get("exc") for b, g in fs)
     return pred
@@ -197,9 +228,21 @@ def run(ctx, res, prop, profile, n_quick=300, n_thorough=4000, probe_ids=(), ext
     obs = pipecheck.observe_all(cases, l2_steps=l2_steps)
     verdicts, errors = ({}, [])
     l2 = {}
-    if ctx.build_ok:
-        verdicts, errors = pipecheck.eval_cases(prop.lower(), cases, obs)
-        l2 = dict(pipecheck.L2)
+    # the model files may well be intact when only the property's own proof cone broke: try anyway
+    verdicts, errors = pipecheck.eval_cases(prop.lower(), cases, obs)
+    l2 = dict(pipecheck.L2)
+    model_ok = not errors
+    if not ctx.build_ok and errors:
+        verdicts, errors, l2 = {}, [], {}
+    if not model_ok:
+        # no executable model: search for a failing input by comparing the two backends directly
+        for i, o in enumerate(obs):
+            p_, s_ = o.get("polars"), o.get("sqlite")
+            if p_ is None or s_ is None or p_.names is None or s_.names is None:
+                continue
+            same = p_.names == s_.names and sorted(map(repr, p_.rows)) == sorted(map(repr, s_.rows))
+            if not same:
+                verdicts[(i, "sqlite")] = 2
     for e in errors:
         res.violations.append({"what": "correspondence cases did not evaluate in Coq", "found_input": False,
                                "payload": {"correspondence": f"{prop} L1", "error": e}})
@@ -270,6 +313,8 @@ def run(ctx, res, prop, profile, n_quick=300, n_thorough=4000, probe_ids=(), ext
             # never shrink into the region of a listed finding (that would change the subject)
             small = pipecheck.shrink(cases[i], lambda c: findings.match(c, b, f, listed) is None and base(c),
                                      budget=40)
+            if "grid" in [t.get("shape") for t in cases[i]["tables"].values()]:
+                small = shrink_rows(small, base)
         except Exception:  # noqa: BLE001
             small = cases[i]
         if sig in seen_sig:
